@@ -20,7 +20,7 @@ def main(path: str) -> int:
     else:
         from . import harness
 
-        issues = harness.concrete_run_poisoned(mod.body_for(case), case, values, case.get("options"), reverse_ties=rec.get("env") == "reverse-ties")
+        issues = harness.concrete_run_poisoned(mod.body_for(case), case, values, case.get("options"), reverse_ties=rec.get("env") == "reverse-ties", narrow=rec.get("env") == "int32")
     print("replay of %s: case=%s" % (path, json.dumps(case)[:400]))
     print("values:", rec.get("values"))
     for i in issues:
